@@ -106,6 +106,36 @@ HARNESSES = [
                "others zero; LEVELS=1: direct+indirect (K=3), 2: + double indirect with K=2 children, "
                "3 (thorough tier, K=1): + one triple-indirect chain; start <= end: all 2^64 values"),
 ]
+
+# ---- preallocation (fallocate.c) ----
+FALLOC_UW = ["%s.%d:12" % (f, i) for f in ("vf_fetch", "vf_find", "vf_lower", "vf_above", "vf_store", "vf_inuse", "ext2fs_new_range",
+                                           "ext2fs_block_alloc_stats_range", "ext2fs_zero_blocks2", "ext2fs_map_cluster_block",
+                                           "ext2fs_extent_delete", "ref_pre_l", "ref_pre_p", "ref_pre_pcluster", "ref_pre_lcluster",
+                                           "vf_post_l", "vf_post_p", "vf_post_pcluster", "vf_wellformed") for i in range(2)] \
+    + main_loops(10, 12)
+
+def falloc_helper_cfgs():
+    c = []
+    for crb in (2, 0):
+        for left in (1, 0):
+            for right in (1, 0):
+                d = {"MODE": 1, "CRB": crb}
+                if left: d["HAVE_LEFT"] = None
+                if right: d["HAVE_RIGHT"] = None
+                c.append(d)
+    return c
+
+HARNESSES += [
+    dict(name="falloc_helper", src="falloc.c",
+         funcs=["ext_falloc_helper", "claim_range", "ext2fs_iblk_add_blocks", "ext2fs_blocks_count"],
+         extra_src=["lib/ext2fs/i_block.c", "lib/ext2fs/blknum.c"],
+         configs=falloc_helper_cfgs(), unwind=6,
+         unwindset=FALLOC_UW + ["ext_falloc_helper.0:5"],
+         backends=["default", "kissat"],
+         bound="one call of ext_falloc_helper from every well-formed file state of up to 4 extents (further-left, left, right, "
+               "further-right; lengths up to the on-disk limits, logical blocks < 2^32, physical < 2^30), range of 1..40000 blocks, "
+               "all flag combinations, i_size 48 bits, cluster ratio 1 and 4; allocator answers symbolic, at most 3 general allocations"),
+]
 MANIFEST = {
     "text": "Bounded-exhaustive kernels of the libext2fs file data path: (1) one real file-handle operation "
             "(read/write/llseek/flush/set_size/close) from every handle+mapping+disk state satisfying the buffer "
